@@ -28,7 +28,8 @@ CONSTANTS Kinds,      \* kinds of objects 1..Len(Kinds): "sock" | "pipeR" | "pip
           BUG_HupOnly,          \* TRUE: Poll dispatches only on EPOLLIN/EPOLLOUT (HUP/ERR-only events are never dispatched)
           BUG_StaleTimer,       \* TRUE: timer handler fires without checking that the timerfd really expired
           BUG_CancelAfterClose, \* TRUE: Timer.Cancel after Close resets the state to ready
-          BUG_RegLeak           \* TRUE: a failed epoll registration leaves pending+1 and the interest bit set
+          BUG_RegLeak,          \* TRUE: a failed epoll registration leaves pending+1 and the interest bit set
+          BUG_DelSkip           \* TRUE: poller.Del skips the write direction when removing the read direction fails
 
 VARIABLES
   \* --- library state ---
@@ -46,6 +47,7 @@ VARIABLES
   rdata,      \* [O -> 0..MaxData]   readable units (bytes / queued connections / datagrams)
   peer,       \* [O -> "open" | "closed" | "reset"]
   wfull,      \* [O -> BOOLEAN]      no room to write
+  yanked,     \* [O -> BOOLEAN]      the descriptor was replaced underneath the object (epoll_ctl on it fails)
   tarmed,     \* [T -> -1 | ticks left]
   texp,       \* [T -> BOOLEAN]      timerfd has an unread expiration
   evfd,       \* BOOLEAN             eventfd counter > 0
@@ -55,16 +57,17 @@ VARIABLES
   stack,      \* Seq(frame)          Go call stack, top first
   inpoll, batch, bi, bphase, pq,
   nop, ncmd, npost, needSample, drain, dpolls,
+  rpin, rpdone,   \* class "runpending": inside / after the RunPending call of the drain phase
   \* --- monitor ---
   kinds, cls, lim, base, ost, ops, csnap, tm, posted, ranp, anomaly, bad,
   \* --- generation ---
   hist, done
 
 libvars  == <<interest, rop, wop, oclosed, pending, dispatched, posts, tst, tcan, tint, trep>>
-envvars  == <<rdata, peer, wfull, tarmed, texp, evfd, rdy, now>>
+envvars  == <<rdata, peer, wfull, yanked, tarmed, texp, evfd, rdy, now>>
 ctlvars  == <<stack, inpoll, batch, bi, bphase, pq, nop, ncmd, npost, needSample, drain, dpolls>>
 monvars  == <<kinds, cls, lim, base, ost, ops, csnap, tm, posted, ranp, anomaly, bad>>
-vars     == <<libvars, envvars, ctlvars, monvars, hist, done>>
+vars     == <<libvars, envvars, ctlvars, rpin, rpdone, monvars, hist, done>>
 
 Mon == INSTANCE ReactorMon
 
@@ -77,7 +80,11 @@ Z == [ev |-> "", o |-> 0, op |-> 0, dir |-> "", api |-> "", err |-> "", n |-> 0,
       t |-> 0, d |-> 0, ts |-> 0, pending |-> 0, posted |-> 0, dispatched |-> 0, sched |-> <<>>,
       h |-> 0, cls |-> "", lim |-> 0, kinds |-> <<>>, note |-> ""]
 
-Emit(e)  == Mon!Obs(e) /\ hist' = Append(hist, e)
+\* top-level steps of the model's drain phase are marked: the driver has its own
+\* drain phase (what handlers do during the drain phase is part of the script)
+Emit(e)  == LET f == IF drain /\ stack = <<>> THEN [e EXCEPT !.note = "drain"] ELSE e IN
+            Mon!Obs(f) /\ hist' = Append(hist, f)
+RP == drain /\ Class = "runpending"
 NoEvent  == UNCHANGED <<monvars, hist>>
 
 ResetEv == [Z EXCEPT !.ev = "Reset", !.kinds = Kinds, !.cls = Class, !.lim = Limit, !.n = NT]
@@ -88,9 +95,11 @@ Init ==
   /\ tst = [t \in T |-> "ready"] /\ tcan = [t \in T |-> FALSE] /\ tint = [t \in T |-> FALSE]
   /\ trep = [t \in T |-> 0]
   /\ rdata = [o \in O |-> 0] /\ peer = [o \in O |-> "open"] /\ wfull = [o \in O |-> FALSE]
+  /\ yanked = [o \in O |-> FALSE]
   /\ tarmed = [t \in T |-> -1] /\ texp = [t \in T |-> FALSE] /\ evfd = FALSE /\ rdy = <<>> /\ now = 0
   /\ stack = <<>> /\ inpoll = FALSE /\ batch = <<>> /\ bi = 1 /\ bphase = "R" /\ pq = <<>>
   /\ nop = 0 /\ ncmd = 0 /\ npost = 0 /\ needSample = FALSE /\ drain = FALSE /\ dpolls = 0
+  /\ rpin = FALSE /\ rpdone = FALSE
   /\ kinds = Kinds /\ cls = Class /\ lim = Limit /\ base = 0
   /\ ost = [o \in O |-> "open"] /\ ops = <<>> /\ csnap = <<>>
   /\ tm = [t \in T |-> Mon!IdleTimer] /\ posted = {} /\ ranp = "" /\ anomaly = "" /\ bad = ""
@@ -100,7 +109,8 @@ Init ==
 \* event mask the kernel would report for an entity right now
 OMask(o) ==
   LET k == Kinds[o] IN
-  IF k = "sock" THEN
+  IF yanked[o] THEN {}
+  ELSE IF k = "sock" THEN
        (IF rdata[o] > 0 \/ peer[o] # "open" THEN {"IN"} ELSE {})
        \cup (IF ~wfull[o] THEN {"OUT"} ELSE {})
        \cup (IF peer[o] = "reset" THEN {"HUP", "ERR"} ELSE {})
@@ -127,7 +137,8 @@ RdyObj(s, o, ints, mask) ==
 
 \* result of read(2)/accept(2)/recvfrom(2) on object o
 TryRead(o) ==
-  IF Kinds[o] = "pipeW" THEN "errno"
+  IF yanked[o] THEN "eof"               \* the placeholder descriptor is /dev/null
+  ELSE IF Kinds[o] = "pipeW" THEN "errno"
   ELSE IF peer[o] = "reset" THEN "errno"
   ELSE IF rdata[o] > 0 THEN "data"
   ELSE IF Kinds[o] = "reg" THEN "eof"
@@ -135,7 +146,8 @@ TryRead(o) ==
   ELSE "wouldblock"
 
 TryWrite(o) ==
-  IF Kinds[o] \in {"pipeR", "lst"} THEN "errno"
+  IF yanked[o] THEN "data"
+  ELSE IF Kinds[o] \in {"pipeR", "lst"} THEN "errno"
   ELSE IF peer[o] # "open" THEN "errno"
   ELSE IF wfull[o] THEN "wouldblock"
   ELSE "data"
@@ -169,6 +181,7 @@ Push(fs) == IF stack = <<>> THEN fs
 \* ------------------------------------------------------------------ commands
 Start(d, o) ==
   /\ CanCmd /\ nop < MaxOps /\ (IF d = "R" THEN "read" ELSE "write") \in Cmds
+  /\ (Class = "runpending" => stack = <<>>)   \* handlers start nothing new, so RunPending can terminate
   /\ ~oclosed[o]
   /\ (d = "R" => Kinds[o] # "pipeW") /\ (d = "W" => Kinds[o] \in {"sock", "pipeW", "pkt"})
   /\ (d = "R" => "R" \notin interest[o]) /\ (d = "W" => "W" \notin interest[o])
@@ -180,7 +193,7 @@ Start(d, o) ==
   /\ UNCHANGED <<libvars, envvars, inpoll, batch, bi, bphase, pq, npost, drain, dpolls, done>>
 
 Cancel(o) ==
-  /\ CanCmd /\ "cancel" \in Cmds /\ Kinds[o] \in {"sock", "pipeR", "pipeW"} /\ ~oclosed[o]
+  /\ CanCmd /\ "cancel" \in Cmds /\ Kinds[o] \in {"sock", "pipeR", "pipeW", "reg"} /\ ~oclosed[o]
   /\ ncmd' = ncmd + 1
   /\ stack' = Push(<<CancelFrame(o, "R")>>)
   /\ Emit([Z EXCEPT !.ev = "CancelB", !.o = o])
@@ -196,12 +209,13 @@ Close(o) ==
   /\ CanCmd /\ "close" \in Cmds /\ ~oclosed[o]
   /\ ncmd' = ncmd + 1
   /\ oclosed' = [oclosed EXCEPT ![o] = TRUE]
-  /\ interest' = [interest EXCEPT ![o] = {}]
-  /\ pending' = pending - Cardinality(interest[o])
+  /\ LET left == IF BUG_DelSkip /\ yanked[o] /\ interest[o] = {"R", "W"} THEN {"W"} ELSE {} IN
+     /\ interest' = [interest EXCEPT ![o] = left]
+     /\ pending' = pending - Cardinality(interest[o] \ left)
   /\ rdy' = Without(rdy, o)
   /\ stack' = Push(<<[Fr("closeE", 0) EXCEPT !.o = o]>>)
   /\ Emit([Z EXCEPT !.ev = "CloseB", !.o = o])
-  /\ UNCHANGED <<rop, wop, dispatched, posts, tst, tcan, tint, trep, rdata, peer, wfull, tarmed, texp, evfd, now,
+  /\ UNCHANGED <<rop, wop, dispatched, posts, tst, tcan, tint, trep, rdata, peer, wfull, yanked, tarmed, texp, evfd, now,
                  inpoll, batch, bi, bphase, pq, nop, npost, drain, dpolls, done>>
 
 Post ==
@@ -212,7 +226,7 @@ Post ==
   /\ evfd' = TRUE /\ rdy' = AddRdy(rdy, 0)
   /\ stack' = Push(<<>>)
   /\ Emit([Z EXCEPT !.ev = "PostE", !.h = npost + 1, !.err = "nil"])
-  /\ UNCHANGED <<interest, rop, wop, oclosed, dispatched, tst, tcan, tint, trep, rdata, peer, wfull, tarmed, texp, now,
+  /\ UNCHANGED <<interest, rop, wop, oclosed, dispatched, tst, tcan, tint, trep, rdata, peer, wfull, yanked, tarmed, texp, now,
                  inpoll, batch, bi, bphase, pq, nop, drain, dpolls, done>>
 
 \* internal.Timer.Unset on timer t, as an effect on (tint, pending, tarmed, texp, rdy)
@@ -234,6 +248,7 @@ ArmT(t, d) ==
 
 TSched(t, rep, d) ==
   /\ CanCmd /\ (IF rep = 1 THEN "trep" ELSE "tonce") \in Cmds
+  /\ (Class = "runpending" => stack = <<>>)
   /\ ncmd' = ncmd + 1
   /\ IF tst[t] = "ready"
        THEN /\ ArmT(t, d) /\ trep' = [trep EXCEPT ![t] = IF rep = 1 THEN d ELSE 0]
@@ -241,7 +256,7 @@ TSched(t, rep, d) ==
        ELSE /\ UNCHANGED <<tcan, tint, pending, tarmed, texp, rdy, tst, trep>>
             /\ stack' = Push(<<[Fr("tschedE", t) EXCEPT !.d = "cancelled"]>>)
   /\ Emit([Z EXCEPT !.ev = "TSchedB", !.t = t, !.n = rep, !.d = d * TickUs, !.ts = now * TickUs])
-  /\ UNCHANGED <<interest, rop, wop, oclosed, dispatched, posts, rdata, peer, wfull, evfd, now,
+  /\ UNCHANGED <<interest, rop, wop, oclosed, dispatched, posts, rdata, peer, wfull, yanked, evfd, now,
                  inpoll, batch, bi, bphase, pq, nop, npost, drain, dpolls, done>>
 
 TCancel(t) ==
@@ -253,7 +268,7 @@ TCancel(t) ==
        ELSE tcan' = [tcan EXCEPT ![t] = TRUE] /\ tst' = [tst EXCEPT ![t] = "ready"]
   /\ stack' = Push(<<>>)
   /\ Emit([Z EXCEPT !.ev = "TCancelE", !.t = t, !.err = "nil"])
-  /\ UNCHANGED <<interest, rop, wop, oclosed, dispatched, posts, trep, rdata, peer, wfull, evfd, now,
+  /\ UNCHANGED <<interest, rop, wop, oclosed, dispatched, posts, trep, rdata, peer, wfull, yanked, evfd, now,
                  inpoll, batch, bi, bphase, pq, nop, npost, drain, dpolls, done>>
 
 TClose(t) ==
@@ -263,7 +278,7 @@ TClose(t) ==
   /\ tst' = [tst EXCEPT ![t] = "closed"]
   /\ stack' = Push(<<>>)
   /\ Emit([Z EXCEPT !.ev = "TCloseE", !.t = t, !.err = "nil"])
-  /\ UNCHANGED <<interest, rop, wop, oclosed, dispatched, posts, tcan, trep, rdata, peer, wfull, evfd, now,
+  /\ UNCHANGED <<interest, rop, wop, oclosed, dispatched, posts, tcan, trep, rdata, peer, wfull, yanked, evfd, now,
                  inpoll, batch, bi, bphase, pq, nop, npost, drain, dpolls, done>>
 
 \* a user callback returns
@@ -307,7 +322,7 @@ DoTry ==
         ELSE \* would block, or at the dispatch limit: scheduleRead / scheduleWrite
           IF oclosed[o] THEN
             /\ Complete(op, "eof", inl) /\ UNCHANGED <<rdata, rdy, interest, pending>>
-          ELSE IF Kinds[o] = "reg" THEN    \* epoll_ctl fails with EPERM
+          ELSE IF Kinds[o] = "reg" \/ yanked[o] THEN    \* epoll_ctl fails (EPERM)
             /\ Complete(op, "errno", inl)
             /\ interest' = IF BUG_RegLeak THEN [interest EXCEPT ![o] = @ \cup {d}] ELSE interest
             /\ pending' = IF BUG_RegLeak /\ d \notin interest[o] THEN pending + 1 ELSE pending
@@ -317,7 +332,7 @@ DoTry ==
             /\ pending' = IF d \in interest[o] THEN pending ELSE pending + 1
             /\ rdy' = RdyObj(rdy, o, interest[o] \cup {d}, OMask(o))
             /\ stack' = Rest /\ UNCHANGED <<rdata, dispatched>> /\ NoEvent
-  /\ UNCHANGED <<oclosed, posts, tst, tcan, tint, trep, peer, wfull, tarmed, texp, evfd, now,
+  /\ UNCHANGED <<oclosed, posts, tst, tcan, tint, trep, peer, wfull, yanked, tarmed, texp, evfd, now,
                  inpoll, batch, bi, bphase, pq, nop, ncmd, npost, needSample, drain, dpolls, done>>
 
 DoRet ==
@@ -337,12 +352,13 @@ DoCancel ==
         /\ DelDir(o, ph)
         /\ stack' = <<CbFrame("op", IF ph = "R" THEN rop[o] ELSE wop[o], FALSE),
                       CancelFrame(o, IF ph = "R" THEN "W" ELSE "E")>> \o Rest
-        /\ Emit([Z EXCEPT !.ev = "CbB", !.op = IF ph = "R" THEN rop[o] ELSE wop[o], !.err = "cancelled", !.depth = Depth])
+        /\ Emit([Z EXCEPT !.ev = "CbB", !.op = IF ph = "R" THEN rop[o] ELSE wop[o],
+                           !.err = IF yanked[o] THEN "errno" ELSE "cancelled", !.depth = Depth])
         /\ UNCHANGED dispatched
      ELSE
         /\ stack' = <<CancelFrame(o, IF ph = "R" THEN "W" ELSE "E")>> \o Rest /\ NoEvent
         /\ UNCHANGED <<interest, pending, rdy, dispatched>>
-  /\ UNCHANGED <<rop, wop, oclosed, posts, tst, tcan, tint, trep, rdata, peer, wfull, tarmed, texp, evfd, now,
+  /\ UNCHANGED <<rop, wop, oclosed, posts, tst, tcan, tint, trep, rdata, peer, wfull, yanked, tarmed, texp, evfd, now,
                  inpoll, batch, bi, bphase, pq, nop, ncmd, npost, needSample, drain, dpolls, done>>
 
 DoCloseE ==
@@ -366,7 +382,7 @@ DoRearm ==
      ELSE IF tst[t] = "ready" /\ trep[t] > 0 THEN ArmT(t, trep[t])
      ELSE UNCHANGED <<tcan, tint, pending, tarmed, texp, rdy, tst>>
   /\ stack' = Rest /\ NoEvent
-  /\ UNCHANGED <<interest, rop, wop, oclosed, dispatched, posts, trep, rdata, peer, wfull, evfd, now,
+  /\ UNCHANGED <<interest, rop, wop, oclosed, dispatched, posts, trep, rdata, peer, wfull, yanked, evfd, now,
                  inpoll, batch, bi, bphase, pq, nop, ncmd, npost, needSample, drain, dpolls, done>>
 
 \* poller.dispatch(): run the posted handlers one after the other
@@ -395,8 +411,8 @@ Poll ==
   /\ dpolls' = IF drain THEN dpolls + 1 ELSE dpolls
   /\ inpoll' = TRUE /\ batch' = BatchOf /\ bi' = 1 /\ bphase' = "R"
   /\ rdy' = [k \in DOMAIN BatchOf |-> BatchOf[k].x]
-  /\ Emit([Z EXCEPT !.ev = "PollB"])
-  /\ UNCHANGED <<libvars, rdata, peer, wfull, tarmed, texp, evfd, now, stack, pq, nop, npost, needSample, drain, done>>
+  /\ IF RP THEN NoEvent ELSE Emit([Z EXCEPT !.ev = "PollB"])
+  /\ UNCHANGED <<libvars, rdata, peer, wfull, yanked, tarmed, texp, evfd, now, stack, pq, nop, npost, needSample, drain, done>>
 
 Fires(m, d, ints) ==
   IF d = "R" THEN "R" \in ints /\ (IF BUG_HupOnly THEN "IN" \in m ELSE m \cap {"IN", "HUP", "ERR"} # {})
@@ -405,8 +421,9 @@ Fires(m, d, ints) ==
 PollStep ==
   /\ stack = <<>> /\ inpoll
   /\ IF bi > Len(batch) THEN
-        /\ inpoll' = FALSE /\ batch' = <<>> /\ bi' = 1 /\ needSample' = TRUE
-        /\ Emit([Z EXCEPT !.ev = "PollE", !.n = Len(batch), !.err = IF Len(batch) = 0 THEN "timeout" ELSE "nil"])
+        /\ inpoll' = FALSE /\ batch' = <<>> /\ bi' = 1 /\ needSample' = ~RP
+        /\ IF RP THEN NoEvent
+           ELSE Emit([Z EXCEPT !.ev = "PollE", !.n = Len(batch), !.err = IF Len(batch) = 0 THEN "timeout" ELSE "nil"])
         /\ UNCHANGED <<libvars, envvars, stack, bphase, pq>>
      ELSE LET x == batch[bi].x  m == batch[bi].m IN
        IF x = 0 THEN                       \* the waker: drain the eventfd, run the posts
@@ -414,7 +431,7 @@ PollStep ==
           /\ stack' = <<Fr("postloop", 0)>>
           /\ bi' = bi + 1 /\ NoEvent
           /\ UNCHANGED <<interest, rop, wop, oclosed, pending, dispatched, tst, tcan, tint, trep,
-                         rdata, peer, wfull, tarmed, texp, rdy, now, inpoll, batch, bphase, needSample>>
+                         rdata, peer, wfull, yanked, tarmed, texp, rdy, now, inpoll, batch, bphase, needSample>>
        ELSE IF x <= NO THEN
           /\ IF Fires(m, bphase, interest[x]) THEN
                 /\ DelDir(x, bphase)
@@ -423,7 +440,7 @@ PollStep ==
           /\ IF bphase = "R" THEN bphase' = "W" /\ bi' = bi ELSE bphase' = "R" /\ bi' = bi + 1
           /\ NoEvent
           /\ UNCHANGED <<rop, wop, oclosed, dispatched, posts, tst, tcan, tint, trep,
-                         rdata, peer, wfull, tarmed, texp, evfd, now, inpoll, batch, pq, needSample>>
+                         rdata, peer, wfull, yanked, tarmed, texp, evfd, now, inpoll, batch, pq, needSample>>
        ELSE LET t == x - NO IN
           /\ bi' = bi + 1
           /\ IF tint[t] THEN
@@ -439,7 +456,7 @@ PollStep ==
                    /\ Emit([Z EXCEPT !.ev = "TFireB", !.t = t, !.ts = now * TickUs, !.depth = 1])
              ELSE NoEvent /\ UNCHANGED <<tint, pending, texp, tst, stack, rdy>>
           /\ UNCHANGED <<interest, rop, wop, oclosed, dispatched, posts, tcan, trep,
-                         rdata, peer, wfull, tarmed, evfd, now, inpoll, batch, bphase, pq, needSample>>
+                         rdata, peer, wfull, yanked, tarmed, evfd, now, inpoll, batch, bphase, pq, needSample>>
   /\ UNCHANGED <<nop, ncmd, npost, drain, dpolls, done>>
 
 Sample ==
@@ -458,28 +475,33 @@ EnvStep(what, o) ==
             /\ Kinds[o] # "pipeW" /\ peer[o] = "open" /\ rdata[o] < MaxData
             /\ rdata' = [rdata EXCEPT ![o] = @ + 1]
             /\ rdy' = RdyObj(rdy, o, interest[o], OMask(o) \cup {"IN"})
-            /\ UNCHANGED <<peer, wfull>>
+            /\ UNCHANGED <<peer, wfull, yanked>>
        [] what = "peerclose" ->
             /\ Kinds[o] \in {"sock", "pipeR", "pipeW"} /\ peer[o] = "open"
             \* a TCP peer that closes with unread data in its receive queue resets the connection
             /\ peer' = [peer EXCEPT ![o] = IF Kinds[o] = "sock" /\ wfull[o] THEN "reset" ELSE "closed"]
             /\ rdata' = [rdata EXCEPT ![o] = IF Kinds[o] = "sock" /\ wfull[o] THEN 0 ELSE @]
             /\ rdy' = RdyObj(rdy, o, interest[o], {"IN", "HUP", "ERR"})
-            /\ UNCHANGED wfull
+            /\ UNCHANGED <<wfull, yanked>>
        [] what = "reset" ->
             /\ Kinds[o] = "sock" /\ peer[o] = "open"
             /\ peer' = [peer EXCEPT ![o] = "reset"] /\ rdata' = [rdata EXCEPT ![o] = 0]
             /\ rdy' = RdyObj(rdy, o, interest[o], {"IN", "HUP", "ERR"})
-            /\ UNCHANGED wfull
+            /\ UNCHANGED <<wfull, yanked>>
+       [] what = "yank" ->
+            /\ Kinds[o] = "sock" /\ ~yanked[o]
+            /\ yanked' = [yanked EXCEPT ![o] = TRUE]
+            /\ rdy' = Without(rdy, o)
+            /\ UNCHANGED <<rdata, peer, wfull>>
        [] what = "fillw" ->
             /\ Kinds[o] \in {"sock", "pipeW"} /\ peer[o] = "open" /\ ~wfull[o] /\ "W" \notin interest[o]
             /\ wfull' = [wfull EXCEPT ![o] = TRUE]
-            /\ UNCHANGED <<rdata, peer, rdy>>
+            /\ UNCHANGED <<rdata, peer, rdy, yanked>>
        [] what = "drainw" ->
             /\ Kinds[o] \in {"sock", "pipeW"} /\ peer[o] = "open" /\ wfull[o]
             /\ wfull' = [wfull EXCEPT ![o] = FALSE]
             /\ rdy' = RdyObj(rdy, o, interest[o], {"OUT"})
-            /\ UNCHANGED <<rdata, peer>>
+            /\ UNCHANGED <<rdata, peer, yanked>>
   /\ ncmd' = IF drain THEN ncmd ELSE ncmd + 1
   /\ needSample' = TRUE
   /\ Emit([Z EXCEPT !.ev = "Env", !.api = what, !.o = o, !.n = 1])
@@ -496,9 +518,9 @@ Tick ==
          ord == SetToSeq(newly)    \* several timers expiring in one tick: some order
      IN rdy' = rdy \o SelectSeq([k \in DOMAIN ord |-> TEnt(ord[k])], LAMBDA x : ~InSeq(rdy, x))
   /\ ncmd' = IF drain THEN ncmd ELSE ncmd + 1
-  /\ needSample' = TRUE
+  /\ needSample' = ~(RP /\ rpin)
   /\ Emit([Z EXCEPT !.ev = "Env", !.api = "tick", !.n = 1])
-  /\ UNCHANGED <<libvars, rdata, peer, wfull, evfd, stack, inpoll, batch, bi, bphase, pq, nop, npost, drain, dpolls, done>>
+  /\ UNCHANGED <<libvars, rdata, peer, wfull, yanked, evfd, stack, inpoll, batch, bi, bphase, pq, nop, npost, drain, dpolls, done>>
 
 \* ------------------------------------------------------------------ drain and end of scenario
 \* The driver makes every parked operation completable, polls until its own
@@ -516,13 +538,26 @@ StartDrain ==
 
 DrainStep ==
   /\ drain /\ stack = <<>> /\ ~inpoll /\ ~needSample /\ ~done /\ bad = ""
-  /\ IF \E o \in O : NeedsData(o) THEN EnvStep("send", CHOOSE o \in O : NeedsData(o))
-     ELSE IF \E o \in O : NeedsDrain(o) THEN EnvStep("drainw", CHOOSE o \in O : NeedsDrain(o))
-     ELSE IF (\E t \in T : tarmed[t] > 0 /\ trep[t] = 0) THEN Tick
-     ELSE IF Busy /\ dpolls < MaxDrain THEN Poll
+  /\ IF ~rpin /\ \E o \in O : NeedsData(o) THEN EnvStep("send", CHOOSE o \in O : NeedsData(o)) /\ UNCHANGED <<rpin, rpdone>>
+     ELSE IF ~rpin /\ \E o \in O : NeedsDrain(o) THEN EnvStep("drainw", CHOOSE o \in O : NeedsDrain(o)) /\ UNCHANGED <<rpin, rpdone>>
+     ELSE IF Class = "runpending" /\ ~rpin /\ ~rpdone THEN
+          \* everything parked is completable now: the driver calls RunPending
+          /\ rpin' = TRUE /\ Emit([Z EXCEPT !.ev = "RunPendB"])
+          /\ UNCHANGED <<libvars, envvars, ctlvars, done, rpdone>>
+     ELSE IF Class = "runpending" /\ rpin /\ pending <= 0 THEN
+          /\ rpin' = FALSE /\ rpdone' = TRUE /\ Emit([Z EXCEPT !.ev = "RunPendE", !.err = "nil"])
+          /\ needSample' = TRUE
+          /\ UNCHANGED <<libvars, envvars, stack, inpoll, batch, bi, bphase, pq, nop, ncmd, npost, drain, dpolls, done>>
+     ELSE IF (\E t \in T : tarmed[t] > 0 /\ trep[t] = 0) /\ ~rpdone THEN Tick /\ UNCHANGED <<rpin, rpdone>>
+     ELSE IF (IF Class = "runpending" THEN rpin ELSE Busy) /\ dpolls < MaxDrain THEN Poll /\ UNCHANGED <<rpin, rpdone>>
+     ELSE IF Class = "runpending" /\ rpin THEN
+          \* RunPending never returned although the budget is spent
+          /\ rpin' = FALSE /\ rpdone' = TRUE /\ Emit([Z EXCEPT !.ev = "Stuck", !.api = "RunPending"])
+          /\ needSample' = TRUE
+          /\ UNCHANGED <<libvars, envvars, stack, inpoll, batch, bi, bphase, pq, nop, ncmd, npost, drain, dpolls, done>>
      ELSE /\ done' = TRUE
           /\ Emit([Z EXCEPT !.ev = "End"])
-          /\ UNCHANGED <<libvars, envvars, ctlvars>>
+          /\ UNCHANGED <<libvars, envvars, ctlvars, rpin, rpdone>>
 
 \* ------------------------------------------------------------------ next-state relation
 Command ==
@@ -536,14 +571,15 @@ Auto == DoTry \/ DoRet \/ DoCancel \/ DoCloseE \/ DoTSchedE \/ DoRearm \/ DoPost
 
 Next ==
   IF bad # "" \/ done THEN FALSE
-  ELSE \/ (stack = <<>> /\ ~inpoll /\ ~needSample /\ ~drain /\ Command)
-       \/ (InCb /\ Command)
-       \/ Return
-       \/ Auto
-       \/ (~drain /\ \E o \in O : \E w \in Envs \ {"tick"} : EnvStep(w, o))
-       \/ (~drain /\ Tick)
-       \/ (~drain /\ Poll)
-       \/ StartDrain
+  ELSE \/ /\ UNCHANGED <<rpin, rpdone>>
+          /\ \/ (stack = <<>> /\ ~inpoll /\ ~needSample /\ ~drain /\ Command)
+             \/ (InCb /\ Command)
+             \/ Return
+             \/ Auto
+             \/ (~drain /\ \E o \in O : \E w \in Envs \ {"tick"} : EnvStep(w, o))
+             \/ (~drain /\ Tick)
+             \/ (~drain /\ Poll)
+             \/ StartDrain
        \/ DrainStep
 
 Spec == Init /\ [][Next]_vars
@@ -565,7 +601,7 @@ PendingExact ==
 \* nesting never exceeds the limit plus the poller's frame (chain scenarios)
 DepthBound == Class = "chain" => Cardinality({k \in DOMAIN stack : stack[k].k = "cb"}) <= Limit + 1
 
-View == <<libvars, envvars, ctlvars, monvars>>
+View == <<libvars, envvars, ctlvars, rpin, rpdone, monvars>>
 
 IsCmdEv(e) == e.ev \in {"Call", "CancelB", "CloseB", "PostE", "TSchedB", "TCancelE", "TCloseE", "Env", "PollB"}
 
